@@ -1,0 +1,96 @@
+//! Read-only accessors and kernel entry points for external verification harnesses.
+//!
+//! Everything in this module is compiled only with `--cfg dashu_verif`. Nothing here changes
+//! the behaviour of the library: the functions either read the internal representation or call
+//! an internal word-slice kernel at its documented contract boundary.
+
+use crate::{
+    arch::word::{SignedWord, Word},
+    div,
+    ibig::IBig,
+    memory::MemoryAllocation,
+    mul, root, sqr,
+    ubig::UBig,
+    Sign,
+};
+
+/// Layout of an integer: (signed capacity field, length in words, stored inline?)
+pub fn repr_layout_ubig(x: &UBig) -> (isize, usize, bool) {
+    let cap = x.0.capacity();
+    let signed = match x.0.sign() {
+        Sign::Positive => cap as isize,
+        Sign::Negative => -(cap as isize),
+    };
+    (signed, x.0.len(), cap <= 2)
+}
+
+/// Layout of an integer: (signed capacity field, length in words, stored inline?)
+pub fn repr_layout_ibig(x: &IBig) -> (isize, usize, bool) {
+    let cap = x.0.capacity();
+    let signed = match x.0.sign() {
+        Sign::Positive => cap as isize,
+        Sign::Negative => -(cap as isize),
+    };
+    (signed, x.0.len(), cap <= 2)
+}
+
+/// Bits in a word of this build.
+pub const WORD_BITS: u32 = Word::BITS;
+
+/// `c += sign * a * b` through the selected multiplication kernel, returns the carry.
+///
+/// `which`: 0 = size dispatch (`mul::add_signed_mul`), 1 = schoolbook, 2 = Karatsuba, 3 = Toom-3.
+/// Requires `c.len() == a.len() + b.len()`, `a.len() >= b.len()` and the kernel's minimum length.
+pub fn mul_kernel(which: u8, c: &mut [Word], positive: bool, a: &[Word], b: &[Word]) -> SignedWord {
+    let sign = if positive {
+        Sign::Positive
+    } else {
+        Sign::Negative
+    };
+    let layout = match which {
+        0 => mul::memory_requirement_exact(c.len(), a.len().min(b.len())),
+        _ => mul::verif::memory_requirement(which, b.len()),
+    };
+    let mut allocation = MemoryAllocation::new(layout);
+    let mut memory = allocation.memory();
+    match which {
+        0 => mul::add_signed_mul(c, sign, a, b, &mut memory),
+        _ => mul::verif::add_signed_mul(which, c, sign, a, b, &mut memory),
+    }
+}
+
+/// (THRESHOLD_SIMPLE, THRESHOLD_KARATSUBA, karatsuba::MIN_LEN, toom_3::MIN_LEN) of `mul`.
+pub const MUL_PARAMS: (usize, usize, usize, usize) = mul::verif::PARAMS;
+
+/// THRESHOLD_SIMPLE of `div`.
+pub const DIV_PARAMS: usize = div::verif::PARAMS;
+
+/// `b = a * a` through the squaring kernel (`b` zero-filled, `b.len() == 2 * a.len()`, `a.len() >= 2`).
+pub fn sqr_kernel(b: &mut [Word], a: &[Word]) {
+    let mut allocation = MemoryAllocation::new(sqr::memory_requirement_exact(a.len()));
+    sqr::sqr(b, a, &mut allocation.memory());
+}
+
+/// In-place division `lhs = [lhs % rhs, lhs / rhs]` by a normalised `rhs` (top bit set, >= 2 words).
+///
+/// `which`: 0 = size dispatch, 1 = schoolbook, 2 = divide and conquer. Returns the quotient carry.
+pub fn div_kernel(which: u8, lhs: &mut [Word], rhs: &[Word]) -> bool {
+    let top = crate::primitive::highest_dword(rhs);
+    let fast_div_rhs_top = crate::math::FastDivideNormalized2::new(top);
+    let mut allocation = MemoryAllocation::new(match which {
+        0 => div::memory_requirement_exact(lhs.len(), rhs.len()),
+        _ => div::verif::memory_requirement(which, lhs.len(), rhs.len()),
+    });
+    let mut memory = allocation.memory();
+    match which {
+        0 => div::div_rem_in_place(lhs, rhs, fast_div_rhs_top, &mut memory),
+        _ => div::verif::div_rem_in_place(which, lhs, rhs, fast_div_rhs_top, &mut memory),
+    }
+}
+
+/// Square root with remainder on a normalised `a` of `2n` words (`n >= 2`): `b = floor(sqrt(a))`,
+/// the remainder replaces the low `n` words of `a`, returns its carry.
+pub fn sqrt_rem_kernel(b: &mut [Word], a: &mut [Word]) -> bool {
+    let mut allocation = MemoryAllocation::new(root::memory_requirement_sqrt_rem(b.len()));
+    root::sqrt_rem(b, a, &mut allocation.memory())
+}
